@@ -8,11 +8,18 @@ RULE = ("exhaustive: every sequence of length <= 4 (quick) / <= 5 (thorough) ove
         "two texts per symbol; random beyond (length <= 40, indents <= 9, tabs/NBSP/EM SPACE in the indent, leading indented "
         "lines, custom comment delimiters); no banner or macro starts (the property is about lines outside such bodies); "
         "x syntax x factory. non-trivial = some line is indented; distinct by request.")
-LEVEL_TEXT = ("Theorems (Lean 4, all line lists): the parent cache of the bootstrap loop is sound (every cached entry is the nearest "
-              "preceding shallower config line) and the parent chosen for every line equals the specification 'nearest preceding "
-              "config line with strictly smaller indentation, root if none or if indent 0, comment under a deeper line stays "
-              "unattached'; links do not depend on the syntax. Tied to the code by exhaustive small patterns and random configs.")
-LEVEL_NOTE = "Trusted: Lean kernel, standard axioms, the harness. The theorem is about pass 1 of the model; banners/macros are excluded as in the property."
+LEVEL_TEXT = ("Theorems (Lean 4, all line lists, no size bound): cache_inv -- the parent cache of the bootstrap loop is sound (every cached "
+              "entry k->p is the walk-back answer for indent k over the processed lines and 0 < k <= max_indent; holds initially, preserved "
+              "by every iteration, and under it the chosen parent is the specified one); linkByIndent_eq_spec -- pass 1 returns one parent "
+              "per line and parent(i) = specParent(i): i itself if indent 0 or a comment under a deeper line, else the largest j < i that is a "
+              "config line with smaller indent, i if none (specParent_spec, nearestShallower_some/_none state that reading of the spec); children_eq_spec / "
+              "linkByIndent_children -- derived child lists = specified children; parse_links_eq_spec -- for lists without banner start and "
+              "(ios) macro start, ignore_blank_lines off, the final tree after bootstrap + commit has texts = input, parents = spec, children = "
+              "spec; parse_links_eq_spec_ignore_blank -- the same with ignore_blank_lines on, over the non-blank lines; links_syntax_independent / parse_links_syntax_independent -- links depend on the configuration only through the comment "
+              "delimiters, not the syntax. Tied to the code by exhaustive small patterns and random configs.")
+LEVEL_NOTE = ("Trusted: Lean kernel, standard axioms, the harness. The final-tree theorems exclude banner/macro starts as the property does "
+              "(hypotheses on the line list); the typed-model factory is not modelled (links compared by the correspondence "
+              "with factory on and off).")
 ASSUMPTIONS = ["line texts contain no banner / macro start (generator-enforced)"]
 TRUSTED = []
 EXHAUSTIVE = {"quick": True, "thorough": True}
